@@ -18,12 +18,12 @@ TEXT = {
     "C20": {
         "level": "Lean 4 theorems for every text and every 0<=pos<=end<=len about a line-for-line model of token/file.go: ResolvePos equals the "
                  "specification (newlines before pos / distance from line start), File.Position never panics in range (and the bound is sharp), "
-                 "Error.Error() starts with file:line+1:col+1 of Pos. Model tied to the Go code by the POS channel (Position fields, excerpt text, "
+                 "Error.Error() starts with file:line+1:col+1 of Pos, and the excerpt quotes exactly the lines from pos's line to end's line, each verbatim, with the caret line under the range (position_source_single/multi). Model tied to the Go code by the POS channel (Position fields, excerpt text, "
                  "error text, and panics for out-of-range arguments) over all short texts x all ranges; the implementation predicate re-checks "
                  "line/column/excerpt against newline counting and the prefix of every error the lexer and parser report.",
         "design_ref": "DESIGN.md §4 C20",
-        "note": "Trusted: Lean kernel + standard axioms; model of file.go/error.go (validated by POS channel on explored inputs); the excerpt "
-                "rendering is correspondence-checked only.",
+        "note": "Trusted: Lean kernel + standard axioms; model of file.go/error.go (validated by POS channel on explored inputs); fmt's %3d/%d are modelled (pad3, decimal) "
+                "and correspondence-checked.",
         "technique": "Lean 4 proof (induction over the text relating the line table to a scan) + correspondence",
     },
     "C12": {
@@ -39,16 +39,13 @@ TEXT = {
         "technique": "Lean 4 proof (loop invariant; refinement of the loop to a fold over the token list; list reasoning) + correspondence",
     },
     "C03": {
-        "level": "Lean 4 theorems for every byte string and both lexer modes: the lexer never hits a Go runtime panic (every index/slice is a partial "
-                 "operation in the model, loops run on fuel proved sufficient), every *Error has 0<=Pos<=End<=len so building its Position cannot panic, "
-                 "the recovery-mode lexer always returns a token, lexing terminates within len+2 steps, the splitter never panics and returns the lexer's "
-                 "error. Parser: the structural no-escape obligation over the regenerated call graph (see level_note) and, for termination and runtime "
-                 "panics of the productions, every entry point is run under recover and a deadline on exhaustive short byte strings, fragment soups, the "
-                 "corpus and token-level mutations with malformed first tokens / tokens after ';' — that part is exploration, stated as such.",
+        "level": "Proof (partial). Proved in Lean for every byte string: the lexer (both modes) and the statement splitter terminate, never hit a Go run-time panic, and report errors with in-range positions. "
+                 "Proved over facts regenerated from parser.go/parse_helpers.go/lexer.go/split.go on every run (call graph, defer/recover shapes): no *Error panic escapes any Parse* entry point — every raise site reachable from an entry point "
+                 "lies under a deferred recover whose handler cannot raise (MF.Props.C03.no_escape, entry_no_escape; the static premise is re-decided by the kernel on the regenerated tables). "
+                 "Not proved: termination of the productions and absence of run-time panics (nil, index) in them — every Parse* call of the predicate runs under recover with a deadline over corpus, probes, mutations, single-token edits, grafts and soups.",
         "design_ref": "DESIGN.md §4 C03",
-        "note": "Trusted: Lean kernel + standard axioms; lexer/file/split models validated by LEX/POS/SPLIT on explored inputs. NOT proved: termination "
-                "and panic-freedom of parser.go productions (partial).",
-        "technique": "Lean 4 proof (totality of the modelled lexer/splitter) + correspondence + deadline-guarded execution of all entry points",
+        "note": "Trusted: lexer/splitter models (LEX, SPLIT, POS channels), the facts translator tools/extract/parserfacts.go and the abstraction MF/Model/Recovery.lean (only *Error panics modelled).",
+        "technique": "Lean 4 proof (byte-level totality; big-step recovery calculus with a kernel-decided reachability analysis over regenerated facts) + correspondence channels + predicate on the implementation",
     },
     "C15": {
         "level": "Lean 4 theorems for EVERY byte string and EVERY printable-predicate: QuoteSQLString(s) lexes as exactly one string token with value s "
@@ -163,27 +160,35 @@ TEXT = {
         "technique": "property predicate evaluated on the implementation (corpus, probes, token-level mutations, expression soups); Lean obligations pending",
     },
     "C09": {
-        "level": "Exploration: the error contract on every explored call (nil error <=> clean and fully consumed, Bad* => error, MultiError length, ranges).",
+        "level": "Proof (partial). Over facts regenerated from the source on every run and a big-step model of panic/recover: the error list is append-only (every assignment to .errors is `x.errors = append(x.errors, e)`), every Bad* literal "
+                 "is built in a recover handler after an error was appended (at most one wrapper, one BadNode and one handler run per error), and every entry point has the shape `parse; if Token != <eof> {error}; if len(errors) > 0 {return MultiError}; return nil` — "
+                 "so it returns nil iff no error was recorded and the input was consumed, and then no Bad* node was created (MF.Props.C09.bad_implies_error, entry_contract). "
+                 "Not proved: message/position content of the errors and that returned trees hold only the counted Bad nodes; the predicate evaluates the whole contract on the implementation.",
         "design_ref": "DESIGN.md §4 C09",
-        "note": "No Lean theorem is claimed for this property yet; the claimed level is exploration of the real entry points. Known findings are listed in known-findings.txt.",
-        "technique": "property predicate evaluated on the implementation (corpus, probes, token-level mutations, expression soups); Lean obligations pending",
+        "note": "Trusted: the facts translator and the abstraction MF/Model/Recovery.lean; TREE channel for the tree model. The static premises are re-decided by the kernel on every run.",
+        "technique": "Lean 4 proof (credit analysis proved sound for the recovery calculus, instantiated by decide +kernel on regenerated facts) + predicate on the implementation",
     },
     "C11": {
-        "level": "Exploration: ParseStatements/DDLs/DMLs vs SplitRawStatements + single-statement entry point on ';'-joined lists with random trivia, empty statements and end-of-input-sensitive members. The splitter side is proved (C12).",
+        "level": "Proof (partial). Proved in Lean for every input: with the parseStatements loop, the lexer and the splitter modelled, for ANY statement parser that is Local (reads nothing behind its terminator, ';' and <eof> interchangeable) "
+                 "the list entry point succeeds iff the single-statement parser succeeds on every token-containing piece of SplitRawStatements, with the same results in order (lists_compose, segments_pieces, compose); lexing a piece on its own, shifted to its offset, "
+                 "gives exactly the tokens (kinds, values, positions, comments) the whole input has there (pieces_lex). Over regenerated facts: productions never test '== <eof>' except next to ';' (eof_sites). "
+                 "Not proved: that memefish's statement parser is Local — explored: lists of 1..4 and of 260/1200 statements against split + single-statement parses.",
         "design_ref": "DESIGN.md §4 C11",
-        "note": "No Lean theorem is claimed for this property yet; the claimed level is exploration of the real entry points. Known findings are listed in known-findings.txt.",
-        "technique": "property predicate evaluated on the implementation (corpus, probes, token-level mutations, expression soups); Lean obligations pending",
+        "note": "Trusted: lexer and splitter models (LEX/SPLIT channels), the loop model in MF/Proofs/StmtList.lean (13 lines of Go), the facts translator.",
+        "technique": "Lean 4 proof (abstract locality theorem + lexer truncation/shift invariance + splitter characterisation) + regenerated facts + predicate on the implementation",
     },
     "C16": {
-        "level": "Proof (partial). Lexer half proved in Lean for every input: if x lexes to ts and x' re-spells ts (arbitrary new whitespace/comments subject to the two separation side conditions, any case for keywords and unquoted identifiers) then x' lexes to tokens with the same kinds, bases and decoded values (MF.Props.C16.trivia_lemma). Parser half — the tree depends on the tokens only through those fields — is explored on the real entry points: each accepted input is re-spelled and must parse to the same tree.",
+        "level": "Proof (partial). Lexer half proved in Lean for every input: if x lexes to ts and x' re-spells ts (arbitrary new whitespace/comments subject to the two separation side conditions, any case for keywords and unquoted identifiers) then x' lexes to tokens with the same kinds, bases and decoded values (MF.Props.C16.trivia_lemma). Parser half: regenerated facts show parser.go never reads Token.Space or Token.Comments and reads Token.Raw only for error messages, keyword tests, literal spellings and the >> split (token_uses); that the tree depends on the tokens only through kind/AsString/Base is explored on the real entry points: each accepted input is re-spelled and must parse to the same tree.",
         "design_ref": "DESIGN.md §4 C16",
         "note": "The theorem is about the Lean lexer model, tied to lexer.go by the LEX channel on every run. The parser half is exploration. Known findings are listed in known-findings.txt.",
         "technique": "Lean 4 theorem over the lexer model (simulation of nextToken under re-spelling) + LEX/TREE correspondence channels + property predicate evaluated on the implementation",
     },
     "C18": {
-        "level": "Exploration: repeated, reordered and 16-way concurrent calls give identical trees, SQL and error texts; returned trees are not mutated by later parses. Ownership facts from the translator and the -race build are pending.",
+        "level": "Proof (partial). Over facts regenerated on every run: no package-level variable of memefish/token/ast/char is written after init, there is no go statement and no import of sync, atomic, unsafe, time or rand (ownership); "
+                 "abstractly: calls whose steps read immutable globals and write only their own component give the same results under every interleaving and every order (schedule_independent, schedules_agree). "
+                 "Not proved: that a call writes only memory it allocated — explored: repeated, reordered and 16-way concurrent calls (race-detector build) give identical trees, SQL and error texts; earlier trees are not mutated.",
         "design_ref": "DESIGN.md §4 C18",
-        "note": "No Lean theorem is claimed for this property yet; the claimed level is exploration of the real entry points. Known findings are listed in known-findings.txt.",
-        "technique": "property predicate evaluated on the implementation (corpus, probes, token-level mutations, expression soups); Lean obligations pending",
+        "note": "Trusted: the facts translator; the Go race detector for the exploration half.",
+        "technique": "Lean 4 proof (schedule independence of component-local steps) + regenerated ownership facts + race-detector exploration",
     },
 }
